@@ -20,6 +20,7 @@ fn weights(prop: Prop) -> Vec<(AKind, u32)> {
             (DiscDrain, 10),
             (DiscRestart, 4),
             (DiscDrop, 1),
+            (DiscWaiter, 5),
             (FindObject, 4),
             (WaitForObject, 3),
             (ScopeCreate, 4),
@@ -57,6 +58,9 @@ fn weights(prop: Prop) -> Vec<(AKind, u32)> {
             (SubscribeAll, 3),
             (UnsubscribeAll, 2),
             (DrainEvents, 5),
+            (EventWaiter, 3),
+            (ListenerWaiter, 2),
+            (DiscWaiter, 1),
             (Call, 14),
             (ChanSession, 5),
             (ChanCreate, 4),
